@@ -84,9 +84,14 @@ pub(crate) fn probe(p: Probe) {
 /// Under a cooperative test scheduler only one thread runs at a time, so a thread that was
 /// pre-empted while holding the lock would make a plain spin loop hang. This waits - yielding to the
 /// scheduler - until the lock is observed free and returns without a further scheduling point, so
-/// the `lock()` that follows succeeds at once. With real threads it is a harmless pre-spin.
+/// the `lock()` that follows succeeds at once. Without an installed scheduler it does nothing at all
+/// (limitation: under an installed scheduler a change of that `lock()` into a `try_lock()` is masked).
 #[inline]
 pub(crate) fn before_lock<T>(m: &spin::mutex::SpinMutex<T>) {
+    // completely inert unless a test scheduler is installed
+    if SCHED.load(Ordering::Relaxed) == 0 {
+        return;
+    }
     sched_point(Point::Lock);
     while m.is_locked() {
         sched_point(Point::Spin);
